@@ -12,10 +12,11 @@ from .anchors import anchors
 
 
 def record_fields(eng):
-    """The per-point record: fields that change_point writes at its index parameter."""
+    """The per-point record: union of the fields that change_point writes at its index parameter, that swap_points relocates and
+    that add_new_point appends to (three sibling views of the same record; any one of them may be the broken one)."""
+    out = []
     cp = eng.fn("model.Model.change_point")
     selfn, k = cp.posparams[0], cp.posparams[1]
-    out = []
     for node in eng.prog.own_nodes(cp):
         if isinstance(node, ast.Assign) and len(node.targets) == 1 and isinstance(node.targets[0], ast.Subscript):
             t = node.targets[0]
@@ -23,6 +24,18 @@ def record_fields(eng):
             idx = t.slice.elts[0] if isinstance(t.slice, ast.Tuple) else t.slice
             if f is not None and ekey(idx) == k and f not in out:
                 out.append(f)
+    for fid in ("model.Model.swap_points", "model.Model.add_new_point"):
+        m = eng.fn(fid)
+        sn = m.posparams[0]
+        for node in eng.prog.own_nodes(m):
+            if isinstance(node, ast.Assign) and len(node.targets) == 1:
+                t = node.targets[0]
+                f = _written_field(t, sn)
+                v = node.value
+                moved = (isinstance(t, ast.Subscript) and isinstance(v, ast.Subscript) and ekey(v.value) == ekey(t.value)) or \
+                        (isinstance(t, ast.Attribute) and isinstance(v, ast.Call) and ekey(v.func).endswith("append") and v.args and ekey(v.args[0]) == ekey(t))
+                if f is not None and moved and f not in out:
+                    out.append(f)
     return out
 
 
